@@ -252,6 +252,15 @@ class Model:
             self.p.kill()
 
 
+# representation axes of the inputs actually applied to the real code (filled by the apply_inputs helpers)
+AXES: dict = {}
+
+
+def axis(key, value):
+    k = f"{key}={value}"
+    AXES[k] = AXES.get(k, 0) + 1
+
+
 # ------------------------------------------------------------------ known findings
 
 def load_known_findings():
@@ -387,7 +396,7 @@ class Ctx:
             "rule": self.rule,
             "samples": self.samples,
             "traces_validated_against_impl": self.traces_validated,
-            "input_distribution": dict(sorted(self.hist.items())),
+            "input_distribution": dict(sorted({**self.hist, **{"axis:" + k: v for k, v in AXES.items()}}.items())),
             "exhaustive": False,
         }
         cov.update(self.extra)
